@@ -28,6 +28,8 @@ RV_CSR = [
 ]
 
 RV_UNICODE = [
+    "addi x1, x0, 1\n\u017fub x1, x2, x3\n",
+    "nop\nadd\u0131 x1, x0, 1\n",
     ".data\nmsg: .string \"price: 5 \u20ac\"\n.text\nla a0, msg\naddi a7, zero, 4\necall\n",
     ".data\nq: .string \"\u201cquoted\u201d\"\n.text\nnop\n",
     "# commentaire \u00e9\u00e8 \u65e5\u672c\naddi x1, x0, 1  # \U0001f600\n",
@@ -58,9 +60,11 @@ TOK = [
     "9" * 4400, "0x" + "f" * 30, "0b" + "1" * 70, "-0", "-0x1", "\t", "  ", "lw", "sw", "x1", "a0", "4(x1)",
     "v[1]", "v", "v[007]", "loop", "loop+0x", "loop+0x8", "007", "-08", "0008(x1)", "0o7", "1_000", "٣",
     "\u20ac", "\"\u20ac\"", "s: .string \"\u4e2d\"", "\u00e9", "\U0001f600", "# \u20ac",
+    # characters whose case folding is an ASCII letter (long s, dotless i, Kelvin sign): caseless matching takes them
+    "\u017fub", "\u017fw", "add\u0131", "\u017f", "\u0131", "\u212a", "\u017fll x1, x2, x3", "l\u0131 x1, 1", "x\u0131",
 ]
 
-TOY_TOK = ["0", "00", "09", "0x", "0xG", "4096", "9" * 4400, "0x" + "F" * 20, "-1", "lbl", "lbl:", ":", ".data",
+TOY_TOK = ["\u017fTO", "\u017fto 5", "\u017fub", "\u0131nc", "\u017f", "0", "00", "09", "0x", "0xG", "4096", "9" * 4400, "0x" + "F" * 20, "-1", "lbl", "lbl:", ":", ".data",
            ".text", ".word", ".foo", ",", "LDA", "sto", "NOP", "BRZ", "v", "v:", "#", "007", "4095", "65536", "٣"]
 
 REGS = ["x0", "x1", "x2", "x5", "x6", "x7", "x10", "x11", "x17", "a0", "a1", "a7", "t0", "t1", "s0", "sp", "zero"]
@@ -104,6 +108,8 @@ def gen_riscv(r):
             data.append(f's: .string "{r.choice(["a", "ab", "abc", "Hello", "0123456", ""])}"')
             for i in range(r.randint(1, 3)):
                 t = r.choice(["word", "word", "half", "byte"])
+                if r.random() < 0.2:
+                    data.append(f"z{i}: .zero {r.randint(1, 6)}")
                 data.append(f"d{i}: .{t} " + ", ".join(str(r.choice([1234, 8, 255, 77, 65535, r.randint(1, 99999)])) for _ in range(r.randint(1, 5))))
             if r.random() < 0.3:
                 data.append('s2: .string "xy"')
@@ -254,8 +260,32 @@ def mutate_literal(r, text):
     spans = [m.span() for m in _LIT.finditer(text)]
     if not spans:
         return text
-    a, b = r.choice(spans)
-    return text[:a] + r.choice(ODD_LITERALS) + text[b:]
+    # every *kind* of conversion site gets its share, however many literals of other kinds the text has: the kind
+    # is drawn first (what precedes the literal on its line: a directive, an index bracket, an offset before a
+    # parenthesis, a label+, anything else), then a literal of that kind
+    kinds = {}
+    for (a, b) in spans:
+        ls = text.rfind("\n", 0, a) + 1
+        head = text[ls:a]
+        m = re.search(r"\.(zero|word|half|byte|string)\b", head)
+        if m:
+            k = "." + m.group(1)
+        elif head.endswith("["):
+            k = "index"
+        elif text[b:b + 1] == "(":
+            k = "offset"
+        elif head.endswith("+"):
+            k = "label+"
+        else:
+            k = "other"
+        kinds.setdefault(k, []).append((a, b))
+    kind = r.choice(sorted(kinds))
+    a, b = r.choice(kinds[kind])
+    lits = ODD_LITERALS
+    if kind != "other":
+        # decimal-only sites accept nothing odd but length: Python refuses to convert more than 4300 digits
+        lits = ODD_LITERALS + ["9" * 4400, "1" * 4301, "9" * 4400, "1" * 4301, "7" * 5000, "0" * 4400 + "1"]
+    return text[:a] + r.choice(lits) + text[b:]
 
 
 def mutate(r, text, toks):
